@@ -6,7 +6,7 @@ ALNUM = "0123456789ABCDEFGHIJKLMNOPQRSTUVWXYZ $%*+-./:"
 # characters of JIS X 0208 (double-byte in Shift_JIS): range edges 0x8140 (U+3000), 0x9FFC (U+6ECC), 0xE040 (U+6F3E),
 # hiragana / katakana, first level-1 kanji, last level-2 kanji (0xEA9F..0xEAA4)
 KANJI = "　滌漾あいんアン亜唖娃阿哀愛日本語堯槇遙瑤凜熙"
-UTF8_EXTRA = ["é", "ß", "€", "あ", "世", "\U0001f600", "Ж"]
+UTF8_EXTRA = ["é", "ß", "€", "あ", "世", "\U0001f600", "Ж", "\U00020bb7", "\U0002b820"]   # incl. 4-byte sequences whose bytes are all >= 0xA0
 
 
 def gen_caps(ctx):
@@ -76,7 +76,7 @@ def validate_balanced(ctx, module, obs, timeout=14000, nshards=None):
     return sorted(out)
 
 
-FLAGS = {"enc": ["outcome(version/mode/level/refusal)", "mask", "matrix==reference", "decode(matrix)==text", "read(image)==text"],
+FLAGS = {"enc": ["outcome(version/mode/level/refusal)", "mask / earlier result unchanged", "matrix==reference", "decode(matrix)==text", "read(image)==text"],
          "dmg": ["symbol as requested", "fault scripts: within capacity => decoded text unchanged"],
          "encn": ["version choice / refusal"],
          "tables": ["totals", "alignment centres", "block counts", "block groups", "count widths"],
